@@ -437,10 +437,10 @@ def _(c):
 # TDM
 
 def _grid_tdm(tier, rng):
-    """measurement sets of 1..12 range / azimuth / elevation measurements on 1..2 paths (one-way and two-way) x 6 time scales (quick 40, thorough 400 seeded cases)"""
+    """measurement sets of 1..12 range / azimuth / elevation / range-rate (Doppler) measurements on 1..2 paths (one-way and two-way) x 6 time scales (quick 40, thorough 400 seeded cases)"""
     n = 40 if tier == "quick" else 400
     for k in range(n):
-        yield {"k": k, "n": [1, 2, 3, 6, 12][k % 5], "paths": 1 + (k // 5) % 2, "scale": k % 6, "types": (k // 3) % 4}
+        yield {"k": k, "n": [1, 2, 3, 6, 12][k % 5], "paths": 1 + (k // 5) % 2, "scale": k % 6, "types": (k // 3) % 5}
 
 
 @contract("C13", "tdm", funcs=[f"{CC}.tdm:_dumps_kvn", f"{CC}.tdm:_dumps_xml", f"{CC}.tdm:_loads_kvn", f"{CC}.tdm:_loads_xml", f"{CC}.tdm:collect_metadata", f"{CC}.tdm:encode_measurement"],
@@ -449,19 +449,20 @@ def _(c):
     """bounded: a TDM written from a set of range / azimuth / elevation measurements and read back (KVN and XML) has, path by path, the same measurements in the same
     order: type, path, epoch to the microsecond in the same scale, value to the written precision (1 mm; 0.01 deg, angles modulo a turn); KVN and XML agree; what was read
     can be written again"""
-    from beyond.utils.measures import MeasureSet, Range, Azimut, Elevation
+    from beyond.utils.measures import MeasureSet, Range, Azimut, Elevation, Doppler
     from beyond.dates import timedelta
     k = c.integer("k")
     rng = np.random.default_rng(900 + k)
     scale = SCALES[c.integer("scale")]
     paths = [("STA1", "SAT", "STA1"), ("STA2", "SAT")][:c.integer("paths")]
-    kinds = [[Range, Azimut, Elevation], [Range], [Azimut, Elevation], [Elevation, Range]][c.integer("types")]
+    kinds = [[Range, Azimut, Elevation], [Range], [Azimut, Elevation], [Elevation, Range], [Range, Doppler]][c.integer("types")]
     ms = MeasureSet()
     for i in range(c.integer("n")):
         d = _date(k, scale) + timedelta(seconds=10.0 * i + 0.000007 * i)
         for p in paths:
             for K in kinds:
-                v = {Range: 4.0e5 + 2.0e6 * rng.random(), Azimut: (2 * rng.random() - 1) * 2 * math.pi, Elevation: rng.random() * math.pi / 2}[K]
+                v = {Range: 4.0e5 + 2.0e6 * rng.random(), Azimut: (2 * rng.random() - 1) * 2 * math.pi, Elevation: rng.random() * math.pi / 2,
+                     Doppler: (2 * rng.random() - 1) * 7.0e3}[K]
                 ms.append(K(p, d, v))
 
     def flat(x):
@@ -480,6 +481,9 @@ def _(c):
             cmp.check("epoch", _same_date(x.date, y.date), f"{x.date!r} {y.date!r}")
             if isinstance(x, Range):
                 cmp.check("value", abs(x.value - y.value) <= 0.5e-3 * (1 + 1e-9), f"range {x.value - y.value}")
+            elif isinstance(x, Doppler):
+                # (written with six decimals)
+                cmp.check("value", abs(x.value - y.value) <= 0.5e-6 * (1 + 1e-6), f"range rate {x.value - y.value}")
             else:
                 dlt = abs(x.value - y.value) % (2 * math.pi)
                 cmp.check("value", min(dlt, 2 * math.pi - dlt) <= math.radians(0.5e-2) * (1 + 1e-6), f"angle {dlt}")
